@@ -23,9 +23,10 @@ func init() {
 		Stubbed: []string{"transports: SimConn / SimReader", "peers: scripted with the reference encoder"},
 		Assume:  []string{"one P per worker and GC off during a run make sync.Pool reuse deterministic; forced GCs are engine actions"},
 		Scenarios: []*Scenario{
-			{Name: "retain", Weight: 1, Bubble: true, Run: c06Retain},
+			{Name: "retain", Weight: 4, Bubble: true, Run: c06Retain},
+			{Name: "sm-error-reports", Weight: 1, Bubble: true, Run: func(e *Env) { smaRun(e, "C06") }},
 		},
-		MustProbes: []string{"pooled-then-pooled", "retained-across-connection", "retained-across-goroutine", "boundary-1025-1044"},
+		MustProbes: []string{"pooled-then-pooled", "retained-across-connection", "retained-across-goroutine", "boundary-1025-1044", "retained-forwarded", "unpadded-tail", "error-report-message-retained"},
 	})
 }
 
@@ -131,6 +132,12 @@ func genC06Msg(t *Tape, e *Env, idx int, fill byte) []byte {
 			m.AVPs = append(m.AVPs, RefAVP{Code: 80007, Data: fb(pad, 99)})
 		}
 	}
+	if t.Chance(1, 5) {
+		// last AVP with an odd-length payload and no trailing padding
+		m.AVPs = append(m.AVPs, RefAVP{Code: 80009, Data: fb(1+2*int(fill%5), 55)})
+		m.TrimPad = true
+		e.Probe("unpadded-tail")
+	}
 	b := m.Bytes()
 	e.Act(sizeClass(len(b)-20), "")
 	return b
@@ -153,6 +160,7 @@ func c06Retain(e *Env) {
 	type cstate struct {
 		sc   *SimConn
 		name string
+		dc   diam.Conn
 	}
 	var conns []*cstate
 	for i := 0; i < nConn; i++ {
@@ -168,10 +176,11 @@ func c06Retain(e *Env) {
 				a.WriteTo(c)
 			}
 		})
-		if _, err := diam.NewConn(sc, "sim", mux, simDict()); err != nil {
+		dc, err := diam.NewConn(sc, "sim", mux, simDict())
+		if err != nil {
 			e.Harness("NewConn: %v", err)
 		}
-		conns = append(conns, &cstate{sc, name})
+		conns = append(conns, &cstate{sc, name, dc})
 	}
 	nBare := t.Draw(3)
 	check := func(when string) bool {
@@ -253,6 +262,27 @@ func c06Retain(e *Env) {
 			e.Fault("forced-gc")
 			if !check("after a forced GC") {
 				break
+			}
+		}
+		if t.Chance(1, 4) {
+			// a holder forwards a retained message on some connection (a proxy does this)
+			mu.Lock()
+			var fw *retained
+			if len(kept) > 0 {
+				fw = kept[t.Draw(len(kept))]
+			}
+			mu.Unlock()
+			if fw != nil {
+				to := conns[t.Draw(len(conns))]
+				done := make(chan struct{})
+				go func() { defer close(done); fw.m.WriteTo(to.dc) }()
+				e.Quiesce()
+				<-done
+				e.Act("forward", "#%d via %s", fw.index, to.name)
+				e.Probe("retained-forwarded")
+				if !check(fmt.Sprintf("after retained message #%d was written to %s", fw.index, to.name)) {
+					break
+				}
 			}
 		}
 		if t.Chance(1, 6) {
